@@ -2,7 +2,7 @@
    announce-to-down, periodic gossip) are re-armed exactly once by the handler of their own
    live timer, armed exactly once each when the instance connects, and never otherwise;
    every epoch change (Idle, Defunct, identity change) leaves nothing armed in the new epoch. *)
-From Foca Require Import Laws L_Lists MembersM L_Members L_MembersInv FocaM Hoare Inv L_Mech L_Timers L_Mirror L_ConnCons.
+From Foca Require Import Laws L_Lists MembersM L_Members L_MembersInv FocaM Hoare Inv L_Reject L_Mech L_Timers L_Mirror L_ConnCons.
 
 Section Acct.
 Context {Id Addr : Type} {IO : IdOps Id Addr} {CO : CodecOps Id} {HO : HandlerOps Id} {IL : IdLaws IO}.
@@ -233,6 +233,8 @@ Qed.
 
 (* ---- the accounting invariant of one call, relative to the state f0 it started from ---- *)
 Variable f0 : foca.
+(* the loop whose live timer this call consumes, if any *)
+Variable L : option lk.
 
 Definition enabled (c : config) : list lk :=
   LProbe :: (if is_some (periodic_announce c) then [LAnn] else [])
@@ -242,17 +244,23 @@ Definition full (c : config) (k : N) : list (lk * N) := map (fun K => (K, k)) (e
 
 (* nothing happened to the loops so far *)
 Definition M0 (s : rs) : Prop :=
-  acc (out s) = ([], false) /\ token (st s) = token f0 /\ conn (st s) = conn f0.
+  acc (out s) = ([], false) /\ token (st s) = token f0 /\ conn (st s) = conn f0
+  /\ incl (enabled (cfg (st s))) (enabled (cfg f0)).
 (* not connected, nothing armed in the current epoch *)
-Definition M1 (s : rs) : Prop := conn (st s) <> Connected /\ fst (acc (out s)) = [].
+Definition M1 (s : rs) : Prop :=
+  conn (st s) <> Connected /\ fst (acc (out s)) = []
+  /\ (snd (acc (out s)) = false -> token (st s) = token f0 -> conn (st s) = conn f0).
 (* connected in the current epoch: every enabled loop armed exactly once with the current token *)
 Definition M2 (s : rs) : Prop :=
-  conn (st s) = Connected /\ fst (acc (out s)) = full (cfg (st s)) (token (st s)).
+  conn (st s) = Connected /\ fst (acc (out s)) = full (cfg (st s)) (token (st s))
+  /\ (snd (acc (out s)) = false -> token (st s) = token f0 -> conn f0 <> Connected).
 (* the live timer of loop K was consumed and re-armed exactly once *)
 Definition ML (K : lk) (s : rs) : Prop :=
   acc (out s) = ([(K, token f0)], false) /\ token (st s) = token f0
-  /\ conn (st s) = Connected /\ conn f0 = Connected.
-Definition J (s : rs) : Prop := M0 s \/ M1 s \/ M2 s \/ exists K, ML K s.
+  /\ conn (st s) = Connected /\ conn f0 = Connected
+  /\ incl (enabled (cfg (st s))) (enabled (cfg f0)).
+Definition MLo (s : rs) : Prop := match L with Some K => ML K s | None => False end.
+Definition J (s : rs) : Prop := M0 s \/ M1 s \/ M2 s \/ MLo s.
 
 Definition jpost {A} (x : rs * res A) : Prop :=
   match x with
@@ -285,11 +293,12 @@ Lemma J_still (s s' : rs) new :
   out s' = out s ++ new -> Forall neutral new -> J s -> J s'.
 Proof.
   intros C T G O Nn Js. assert (EA : acc (out s') = acc (out s)) by (rewrite O; apply acc_app_neutral; exact Nn).
-  destruct Js as [(A & B & D)|[(A & B)|[(A & B)|(K & A & B & D & E)]]].
-  - left. unfold M0. rewrite EA, T, C. auto.
-  - right. left. unfold M1. rewrite EA, C. auto.
+  destruct Js as [(A & B & D & E)|[(A & B & D)|[(A & B & D)|H]]].
+  - left. unfold M0. rewrite EA, T, C, G. auto.
+  - right. left. unfold M1. rewrite EA, C, T. auto.
   - right. right. left. unfold M2. rewrite EA, C, G, T. auto.
-  - right. right. right. exists K. unfold ML. rewrite EA, T, C. auto.
+  - right. right. right. unfold MLo in *. destruct L as [K|]; [|contradiction].
+    destruct H as (A & B & D & E & F). unfold ML. rewrite EA, T, C, G. auto.
 Qed.
 
 Lemma still_jp {A} (m : M A) : still m -> jp m.
@@ -314,7 +323,7 @@ Proof. unfold acc. rewrite acc_from_app. reflexivity. Qed.
 Lemma jp_become_undead : jp (@become_undead Id Addr HO).
 Proof.
   intros s _. unfold become_undead, bind, modify, emit. cbn.
-  right. left. split; [cbn; discriminate|]. cbn [out]. rewrite acc_snoc. reflexivity.
+  right. left. split; [cbn; discriminate|]. cbn [out]. rewrite acc_snoc. cbn. split; [reflexivity|discriminate].
 Qed.
 
 Lemma jpP_become_disconnected s : jpP (@become_disconnected Id Addr HO) s.
@@ -322,7 +331,7 @@ Proof.
   intros _. unfold become_disconnected, bind at 1, get at 1. cbv beta iota.
   destruct (negb (num_active (mems (st s)) =? 0)); [exact I|].
   unfold bind, modify, emit. cbn.
-  right. left. split; [cbn; discriminate|]. cbn [out]. rewrite acc_snoc. reflexivity.
+  right. left. split; [cbn; discriminate|]. cbn [out]. rewrite acc_snoc. cbn. split; [reflexivity|discriminate].
 Qed.
 
 Lemma acc_from_periodic a p t K k :
@@ -337,20 +346,31 @@ Qed.
 Lemma jpP_become_connected s : conn (st s) = Disconnected -> jpP (@become_connected Id Addr HO) s.
 Proof.
   intros Cn Js.
-  assert (A0 : fst (acc (out s)) = []).
-  { destruct Js as [(A & _)|[(_ & B)|[(A & _)|(K & _ & _ & D & _)]]]; try congruence.
-    rewrite A. reflexivity. }
+  assert (A0 : fst (acc (out s)) = [] /\ (snd (acc (out s)) = false -> token (st s) = token f0 -> conn f0 <> Connected)).
+  { destruct Js as [(A & B & D & _)|[(_ & B & D)|[(A & _)|H]]].
+    - rewrite A. split; [reflexivity|]. intros _ _. rewrite <- D, Cn. discriminate.
+    - split; [exact B|]. intros E1 E2. rewrite <- (D E1 E2), Cn. discriminate.
+    - congruence.
+    - unfold MLo in H. destruct L as [K|]; [|contradiction]. destruct H as (_ & _ & D & _). congruence. }
+  destruct A0 as [A0 A1].
   destruct (0 <? num_active (mems (st s))) eqn:Z.
   - rewrite become_connected_effects by lia. cbn [jpost].
-    right. right. left. split; [reflexivity|]. cbn [out st cfg token set_conn].
-    unfold acc. rewrite !acc_from_app. fold (acc (out s)).
-    cbn [acc_from fold_left acc_step loop_of].
-    rewrite (acc_from_periodic _ (periodic_announce (cfg (st s))) (TPeriodicAnnounce (token (st s))) LAnn (token (st s)) eq_refl).
-    rewrite (acc_from_periodic _ (periodic_announce_down (cfg (st s))) (TPeriodicAnnounceDown (token (st s))) LAnnDown (token (st s)) eq_refl).
-    rewrite (acc_from_periodic _ (periodic_gossip (cfg (st s))) (TPeriodicGossip (token (st s))) LGossip (token (st s)) eq_refl).
-    cbn [fst snd epoch_note]. rewrite A0. unfold full, enabled. cbn [app map].
-    destruct (is_some (periodic_announce (cfg (st s)))), (is_some (periodic_announce_down (cfg (st s)))),
-             (is_some (periodic_gossip (cfg (st s)))); reflexivity.
+    right. right. left. cbn [out st cfg token conn set_conn].
+    assert (EA : acc (out s ++ [Submit (TProbeRandomMember (token (st s))) (probe_period (cfg (st s)))]
+                       ++ periodic_submits (periodic_announce (cfg (st s))) (TPeriodicAnnounce (token (st s)))
+                       ++ periodic_submits (periodic_announce_down (cfg (st s))) (TPeriodicAnnounceDown (token (st s)))
+                       ++ periodic_submits (periodic_gossip (cfg (st s))) (TPeriodicGossip (token (st s)))
+                       ++ [Notify NActive])
+                 = (full (cfg (st s)) (token (st s)), snd (acc (out s)))).
+    { unfold acc. rewrite !acc_from_app. fold (acc (out s)).
+      cbn [acc_from fold_left acc_step loop_of].
+      rewrite (acc_from_periodic _ (periodic_announce (cfg (st s))) (TPeriodicAnnounce (token (st s))) LAnn (token (st s)) eq_refl).
+      rewrite (acc_from_periodic _ (periodic_announce_down (cfg (st s))) (TPeriodicAnnounceDown (token (st s))) LAnnDown (token (st s)) eq_refl).
+      rewrite (acc_from_periodic _ (periodic_gossip (cfg (st s))) (TPeriodicGossip (token (st s))) LGossip (token (st s)) eq_refl).
+      cbn [fst snd epoch_note]. rewrite A0. unfold full, enabled. cbn [app map].
+      destruct (is_some (periodic_announce (cfg (st s)))), (is_some (periodic_announce_down (cfg (st s)))),
+               (is_some (periodic_gossip (cfg (st s)))); reflexivity. }
+    unfold M2. cbn [st out conn cfg token set_conn]. rewrite EA. cbn [fst snd]. repeat split; auto.
   - unfold become_connected, bind at 1, get at 1. cbv beta iota.
     destruct (num_active (mems (st s)) =? 0) eqn:Z0; [exact I|lia].
 Qed.
@@ -374,7 +394,7 @@ Proof.
   unfold bind at 1. destruct (change_identity rnd new_id s) as [s1 [[]|e|p]] eqn:EC; cbn [fst] in *.
   - unfold bind, emit, ret. cbn. right. left. split.
     + cbn [st]. rewrite Es. cbn. discriminate.
-    + cbn [out]. rewrite acc_snoc. reflexivity.
+    + cbn [out]. rewrite acc_snoc. cbn. split; [reflexivity|discriminate].
   - cbn. subst e. exact I.
   - exact I.
 Qed.
@@ -452,19 +472,19 @@ Lemma M0_emit_loop (s : rs) t d K :
   M0 s -> conn (st s) = Connected -> loop_of t = Some (K, token (st s)) ->
   ML K (mkRs (st s) (out s ++ [Submit t d]) (ctr s)).
 Proof.
-  intros (A & T & C) Cn L. unfold ML. cbn [out st]. rewrite acc_snoc, A. cbn [acc_step]. rewrite L. cbn.
+  intros (A & T & C & G) Cn Lp. unfold ML. cbn [out st]. rewrite acc_snoc, A. cbn [acc_step]. rewrite Lp. cbn.
   rewrite T. repeat split; auto. congruence.
 Qed.
 
 Lemma still_keeps_M0 {A} (m : M A) s : still m -> M0 s -> M0 (fst (m s)).
 Proof.
-  intros H (A0 & T & C). destruct (H s) as (C1 & T1 & _ & new & O & Nn). unfold M0.
-  rewrite O, acc_app_neutral by exact Nn. rewrite T1, C1. auto.
+  intros H (A0 & T & C & G). destruct (H s) as (C1 & T1 & G1 & new & O & Nn). unfold M0.
+  rewrite O, acc_app_neutral by exact Nn. rewrite T1, C1, G1. auto.
 Qed.
 Lemma still_keeps_ML {A} (m : M A) s K : still m -> ML K s -> ML K (fst (m s)).
 Proof.
-  intros H (A0 & T & C & C0). destruct (H s) as (C1 & T1 & _ & new & O & Nn). unfold ML.
-  rewrite O, acc_app_neutral by exact Nn. rewrite T1, C1. auto.
+  intros H (A0 & T & C & C0 & G). destruct (H s) as (C1 & T1 & G1 & new & O & Nn). unfold ML.
+  rewrite O, acc_app_neutral by exact Nn. rewrite T1, C1, G1. auto.
 Qed.
 
 Lemma jpost_of_J {A} (x : rs * res A) : J (fst x) -> jpost x.
@@ -490,7 +510,7 @@ Proof.
   - exact I.
 Qed.
 Lemma rearm_get_bind {B} K (body : foca -> M B) : (forall f, rearm K (body f)) -> rearm K (f <- get ;; body f).
-Proof. intros H s L. unfold bind, get. cbn. apply H. exact L. Qed.
+Proof. intros H s Lv. unfold bind, get. cbn. apply H. exact Lv. Qed.
 
 Lemma rearm_emit_then K (mk : foca -> timer Id) (d : foca -> N) (fin : M unit) :
   (forall f, loop_of (mk f) = Some (K, token f)) -> still fin ->
@@ -547,53 +567,106 @@ Proof.
   destruct (send _) as [s2 [a|e|p]]; cbn [fst rpost] in *; auto. destruct e; auto.
 Qed.
 
-Lemma rpost_jpost {A} K (x : rs * res A) : rpost K x -> jpost x.
-Proof. destruct x as [s' [a|e|p]]; cbn; auto; [|destruct e; auto]; intros H; right; right; right; exists K; exact H. Qed.
+Lemma rpost_jpost {A} K (x : rs * res A) : L = Some K -> rpost K x -> jpost x.
+Proof.
+  intros EL. destruct x as [s' [a|e|p]]; cbn; auto; [|destruct e; auto]; intros H; right; right; right;
+    unfold MLo; rewrite EL; exact H.
+Qed.
+
+(* is t the live timer of an enabled loop of f? *)
+Definition live_timer (f : foca) (t : timer Id) : option lk :=
+  match t with
+  | TProbeRandomMember k => if (k =? token f) && conn_eqb (conn f) Connected then Some LProbe else None
+  | TPeriodicAnnounce k =>
+      if (k =? token f) && conn_eqb (conn f) Connected && is_some (periodic_announce (cfg f)) then Some LAnn else None
+  | TPeriodicAnnounceDown k =>
+      if (k =? token f) && conn_eqb (conn f) Connected && is_some (periodic_announce_down (cfg f)) then Some LAnnDown else None
+  | TPeriodicGossip k =>
+      if (k =? token f) && conn_eqb (conn f) Connected && is_some (periodic_gossip (cfg f)) then Some LGossip else None
+  | _ => None
+  end.
 
 (* handle_timer from the state the call started in *)
-Lemma handle_timer_acct t (s : rs) : M0 s -> jpost (handle_timer rnd t s).
+Lemma handle_timer_acct t (s : rs) : st s = f0 -> L = live_timer f0 t -> M0 s -> jpost (handle_timer rnd t s).
 Proof.
-  intros H0. assert (Js : J s) by (left; exact H0).
-  unfold handle_timer, bind at 1, get at 1. cbv beta iota.
-  destruct t as [tok|probed tok|mid inc tok|tok|tok|tok|down].
-  - destruct (tok =? token (st s)); [|apply jp_ret; exact Js].
-    destruct (conn (st s)) eqn:Cn; cbn [conn_eqb negb]; try (apply (still_jp _ (still_fail _)); exact Js).
-    apply (rpost_jpost LProbe). apply rearm_probe_random_member. split; [exact H0|exact Cn].
+  intros Es EL H0. assert (Js : J s) by (left; exact H0).
+  unfold handle_timer, bind at 1, get at 1. cbv beta iota. rewrite Es in *.
+  destruct t as [tok|probed tok|mid inc tok|tok|tok|tok|down]; cbn [live_timer] in EL.
+  - destruct (tok =? token f0); cbn [andb] in EL; [|apply jp_ret; exact Js].
+    destruct (conn f0) eqn:Cn; cbn [conn_eqb negb] in *; try (apply (still_jp _ (still_fail _)); exact Js).
+    apply (rpost_jpost LProbe _ EL). apply rearm_probe_random_member. split; [exact H0|]. rewrite Es. exact Cn.
   - revert Js. apply still_jp.
-    destruct (negb (tok =? token (st s))); [apply still_ret|].
+    destruct (negb (tok =? token f0)); [apply still_ret|].
     apply still_bind; [smod|]. intros _.
     destruct (negb (probe_is_probing _ _)); [apply still_ret|].
     destruct (probe_succeeded _); [apply still_ret|].
     destruct (negb (is_active_id _ _)); [apply still_ret|].
     apply still_bind; [apply still_choose_active|]. intros chosen. apply still_indirect_loop.
-  - revert Js. destruct (negb (token (st s) =? tok)); [apply jp_ret|].
+  - revert Js. destruct (negb (token f0 =? tok)); [apply jp_ret|].
     destruct (apply_existing_if _ _ _) as [[ms sm]|]; [|apply jp_ret].
     apply jp_bind; [apply still_jp; smod|]. intros _.
     apply jp_bind; [apply still_jp, still_hsum|]. intros _.
     apply jp_bind; [apply jp_adjust|]. intros _. apply jp_when, still_jp, still_send_message.
-  - unfold periodic_guard. destruct (tok =? token (st s)) eqn:T; cbn [andb]; [|apply jp_ret; exact Js].
-    destruct (conn (st s)) eqn:Cn; cbn [conn_eqb]; try (apply jp_ret; exact Js).
-    destruct (periodic_announce (cfg (st s))) as [[freq n]|]; [|apply jp_ret; exact Js].
-    apply (rpost_jpost LAnn).
+  - unfold periodic_guard. destruct (tok =? token f0) eqn:T; cbn [andb] in *; [|apply jp_ret; exact Js].
+    destruct (conn f0) eqn:Cn; cbn [conn_eqb andb] in *; try (apply jp_ret; exact Js).
+    destruct (periodic_announce (cfg f0)) as [[freq n]|]; cbn [is_some] in EL; [|apply jp_ret; exact Js].
+    apply (rpost_jpost LAnn _ EL). rewrite <- Es.
     apply (rearm_periodic LAnn (fun k => TPeriodicAnnounce k) freq tok); [reflexivity|apply still_choose_and_send|].
-    split; [exact H0|exact Cn].
-  - unfold periodic_guard. destruct (tok =? token (st s)) eqn:T; cbn [andb]; [|apply jp_ret; exact Js].
-    destruct (conn (st s)) eqn:Cn; cbn [conn_eqb]; try (apply jp_ret; exact Js).
-    destruct (periodic_announce_down (cfg (st s))) as [[freq n]|]; [|apply jp_ret; exact Js].
-    apply (rpost_jpost LAnnDown).
+    split; [exact H0|rewrite Es; exact Cn].
+  - unfold periodic_guard. destruct (tok =? token f0) eqn:T; cbn [andb] in *; [|apply jp_ret; exact Js].
+    destruct (conn f0) eqn:Cn; cbn [conn_eqb andb] in *; try (apply jp_ret; exact Js).
+    destruct (periodic_announce_down (cfg f0)) as [[freq n]|]; cbn [is_some] in EL; [|apply jp_ret; exact Js].
+    apply (rpost_jpost LAnnDown _ EL). rewrite <- Es.
     apply (rearm_periodic LAnnDown (fun k => TPeriodicAnnounceDown k) freq tok); [reflexivity|apply still_announce_to_down|].
-    split; [exact H0|exact Cn].
-  - unfold periodic_guard. destruct (tok =? token (st s)) eqn:T; cbn [andb]; [|apply jp_ret; exact Js].
-    destruct (conn (st s)) eqn:Cn; cbn [conn_eqb]; try (apply jp_ret; exact Js).
-    destruct (periodic_gossip (cfg (st s))) as [[freq n]|]; [|apply jp_ret; exact Js].
-    apply (rpost_jpost LGossip).
-    apply (rearm_periodic LGossip (fun k => TPeriodicGossip k) freq tok); [reflexivity| |split; [exact H0|exact Cn]].
+    split; [exact H0|rewrite Es; exact Cn].
+  - unfold periodic_guard. destruct (tok =? token f0) eqn:T; cbn [andb] in *; [|apply jp_ret; exact Js].
+    destruct (conn f0) eqn:Cn; cbn [conn_eqb andb] in *; try (apply jp_ret; exact Js).
+    destruct (periodic_gossip (cfg f0)) as [[freq n]|]; cbn [is_some] in EL; [|apply jp_ret; exact Js].
+    apply (rpost_jpost LGossip _ EL). rewrite <- Es.
+    apply (rearm_periodic LGossip (fun k => TPeriodicGossip k) freq tok); [reflexivity| |split; [exact H0|rewrite Es; exact Cn]].
     destruct (updates (st s)), (customs (st s)); try apply still_ret; apply still_choose_and_send.
   - revert Js. apply still_jp. smod.
 Qed.
 
+(* the live timer of an enabled loop: consumed and re-armed exactly once, nothing else armed *)
+Lemma handle_timer_live t K (s : rs) :
+  st s = f0 -> live_timer f0 t = Some K -> M0 s -> rpost K (handle_timer rnd t s).
+Proof.
+  intros Es EL H0.
+  unfold handle_timer, bind at 1, get at 1. cbv beta iota. rewrite Es in *.
+  destruct t as [tok|probed tok|mid inc tok|tok|tok|tok|down]; cbn [live_timer] in EL; try discriminate.
+  - destruct (tok =? token f0); cbn [andb] in EL; [|discriminate].
+    destruct (conn f0) eqn:Cn; cbn [conn_eqb negb] in *; try discriminate.
+    inversion EL; subst K. apply rearm_probe_random_member. split; [exact H0|]. rewrite Es. exact Cn.
+  - unfold periodic_guard. destruct (tok =? token f0) eqn:T; cbn [andb] in *; [|discriminate].
+    destruct (conn f0) eqn:Cn; cbn [conn_eqb andb] in *; try discriminate.
+    destruct (periodic_announce (cfg f0)) as [[freq n]|]; cbn [is_some] in EL; [|discriminate].
+    inversion EL; subst K. rewrite <- Es.
+    apply (rearm_periodic LAnn (fun k => TPeriodicAnnounce k) freq tok); [reflexivity|apply still_choose_and_send|].
+    split; [exact H0|rewrite Es; exact Cn].
+  - unfold periodic_guard. destruct (tok =? token f0) eqn:T; cbn [andb] in *; [|discriminate].
+    destruct (conn f0) eqn:Cn; cbn [conn_eqb andb] in *; try discriminate.
+    destruct (periodic_announce_down (cfg f0)) as [[freq n]|]; cbn [is_some] in EL; [|discriminate].
+    inversion EL; subst K. rewrite <- Es.
+    apply (rearm_periodic LAnnDown (fun k => TPeriodicAnnounceDown k) freq tok); [reflexivity|apply still_announce_to_down|].
+    split; [exact H0|rewrite Es; exact Cn].
+  - unfold periodic_guard. destruct (tok =? token f0) eqn:T; cbn [andb] in *; [|discriminate].
+    destruct (conn f0) eqn:Cn; cbn [conn_eqb andb] in *; try discriminate.
+    destruct (periodic_gossip (cfg f0)) as [[freq n]|]; cbn [is_some] in EL; [|discriminate].
+    inversion EL; subst K. rewrite <- Es.
+    apply (rearm_periodic LGossip (fun k => TPeriodicGossip k) freq tok); [reflexivity| |split; [exact H0|rewrite Es; exact Cn]].
+    destruct (updates (st s)), (customs (st s)); try apply still_ret; apply still_choose_and_send.
+Qed.
+
 Lemma M0_init : M0 (mkRs f0 [] 0).
-Proof. repeat split. Qed.
+Proof. repeat split. apply incl_refl. Qed.
+
+Lemma wrap8_succ_neq (k : N) : wrap8 (k + 1) <> k.
+Proof.
+  unfold wrap8. intros H. assert (k < 256) by (rewrite <- H; apply N.mod_lt; lia).
+  destruct (N.eq_dec k 255) as [->|Ne]; [cbn in H; lia|].
+  rewrite N.mod_small in H by lia. lia.
+Qed.
 
 Lemma run_unit_acct (m : M unit) :
   jpost (m (mkRs f0 [] 0)) ->
@@ -612,21 +685,22 @@ Proof.
   assert (S : still (when (negb (conn_eqb (conn f0) Undead)) (add_update (mkMember (identity f0) 0 Down)) ;;; gossip rnd)).
   { apply still_bind; [apply still_when, still_add_update|]. intros _. apply still_gossip. }
   destruct (S s2) as (C & T & _ & new & O & Nn).
-  apply jpost_of_J. right. left. split.
-  - rewrite C. subst s2. cbn. discriminate.
-  - rewrite O. rewrite acc_app_neutral by exact Nn. reflexivity.
+  apply jpost_of_J. right. left. unfold M1. rewrite C, T, O. rewrite acc_app_neutral by exact Nn.
+  subst s2. cbn. repeat split; [discriminate|]. intros _ H. exfalso. exact (wrap8_succ_neq _ H).
 Qed.
 
 (* ONE CALL from f0: unless it panics (C06) or aborts with an Encode error, the loop timers it
-   submitted since the last epoch notification are described by exactly one of the four modes *)
+   submitted since the last epoch notification are described by exactly one of the modes *)
 Theorem step_acct (i : @input Id) :
+  L = match i with ITimer t => live_timer f0 t | _ => None end ->
   let '(f', es, r, k) := step rnd f0 i in
   match r with Failed EEncode => True | Panicked _ => True | _ => J (mkRs f' es k) end.
 Proof.
+  intros EL.
   assert (J0 : J (mkRs f0 [] 0)) by (left; apply M0_init).
   destruct i; cbn [step].
   - apply run_unit_acct. apply jp_handle_data. exact J0.
-  - apply run_unit_acct. apply handle_timer_acct. apply M0_init.
+  - apply run_unit_acct. apply handle_timer_acct; [reflexivity|exact EL|apply M0_init].
   - apply run_unit_acct. apply jp_apply_many. exact J0.
   - apply run_unit_acct. apply (still_jp _ (still_send_message dst Announce)). exact J0.
   - apply run_unit_acct. apply (still_jp _ still_gossip). exact J0.
@@ -637,12 +711,374 @@ Proof.
   - apply run_unit_acct. apply change_identity_acct.
   - apply run_unit_acct. unfold reuse_down_identity, bind, get. cbn [st].
     destruct (negb (conn_eqb (conn f0) Undead)); [cbn; exact J0|].
-    unfold reset, modify. cbn. right. left. split; [cbn; discriminate|reflexivity].
+    unfold reset, modify. cbn. right. left. unfold M1. cbn. repeat split; [discriminate|].
+    intros _ H. exfalso. exact (wrap8_succ_neq _ H).
   - apply run_unit_acct. unfold set_config, bind at 1, get at 1. cbv beta iota. cbn [st].
+    pose proof (set_config_accepts f0 c) as SA. unfold config_refused in SA.
     destruct (_ || _ || _ || _ || _); [cbn; exact J0|].
-    unfold bind, when, modify, ret. destruct (negb _); cbn; left; repeat split.
+    destruct (SA eq_refl) as (_ & _ & A1 & A2 & A3).
+    assert (IN : incl (enabled c) (enabled (cfg f0))).
+    { unfold enabled. intros K HK. destruct HK as [<-|HK]; [left; reflexivity|]. right.
+      apply in_app_or in HK. apply in_or_app. destruct HK as [HK|HK].
+      - left. destruct (periodic_announce (cfg f0)); [destruct (periodic_announce c); [exact HK|contradiction]|].
+        rewrite (A1 eq_refl) in HK. contradiction.
+      - right. apply in_app_or in HK. apply in_or_app. destruct HK as [HK|HK].
+        + left. destruct (periodic_announce_down (cfg f0)); [destruct (periodic_announce_down c); [exact HK|contradiction]|].
+          rewrite (A2 eq_refl) in HK. contradiction.
+        + right. destruct (periodic_gossip (cfg f0)); [destruct (periodic_gossip c); [exact HK|contradiction]|].
+          rewrite (A3 eq_refl) in HK. contradiction. }
+    unfold bind, when, modify, ret. destruct (negb _); cbn; left; repeat split; exact IN.
   - unfold run_bool. pose proof (still_jp _ (still_add_broadcast b) _ J0) as H.
     destruct (add_broadcast b (mkRs f0 [] 0)) as [[f' es k] [a|e|p]]; cbn in *; auto.
 Qed.
 
+Theorem step_live (t : timer Id) (K : lk) :
+  live_timer f0 t = Some K ->
+  let '(f', es, r, k) := step rnd f0 (ITimer t) in
+  match r with Failed EEncode => True | Panicked _ => True | _ => ML K (mkRs f' es k) end.
+Proof.
+  intros EL. cbn [step]. unfold run_unit.
+  pose proof (handle_timer_live t K (mkRs f0 [] 0) eq_refl EL M0_init) as H.
+  destruct (handle_timer rnd t (mkRs f0 [] 0)) as [[f' es k] [a|e|p]]; cbn in *; auto.
+Qed.
+
 End Acct.
+
+(* ---------- closed loop: the runtime delivers each scheduled timer exactly once ---------- *)
+Section Loop.
+Context {Id Addr : Type} {IO : IdOps Id Addr} {CO : CodecOps Id} {HO : HandlerOps Id} {IL : IdLaws IO}.
+Variable rnd : oracle.
+Notation foca := (@foca Id Addr HO).
+Notation effect := (effect Id).
+
+Definition lk_eqb (a b : lk) : bool :=
+  match a, b with LProbe, LProbe | LAnn, LAnn | LAnnDown, LAnnDown | LGossip, LGossip => true | _, _ => false end.
+Lemma lk_eqb_eq a b : lk_eqb a b = true <-> a = b.
+Proof. destruct a, b; cbn; split; intros H; try reflexivity; try discriminate. Qed.
+
+(* loop timers (kind, token) among a list of timers / among the timers submitted by effects *)
+Definition pairs_of (P : list (timer Id)) : list (lk * N) :=
+  flat_map (fun t => match loop_of t with Some x => [x] | None => [] end) P.
+Definition subm (es : list effect) : list (timer Id) :=
+  flat_map (fun e => match e with Submit t _ => [t] | _ => [] end) es.
+Definition cntp (K : lk) (k : N) (l : list (lk * N)) : nat :=
+  length (filter (fun p => lk_eqb K (fst p) && (k =? snd p)) l).
+Definition cnt (K : lk) (k : N) (P : list (timer Id)) : nat := cntp K k (pairs_of P).
+
+Lemma cntp_app K k l1 l2 : cntp K k (l1 ++ l2) = (cntp K k l1 + cntp K k l2)%nat.
+Proof. unfold cntp. rewrite filter_app, app_length. reflexivity. Qed.
+Lemma pairs_of_app P1 P2 : pairs_of (P1 ++ P2) = pairs_of P1 ++ pairs_of P2.
+Proof. unfold pairs_of. apply flat_map_app. Qed.
+Lemma cnt_app K k P1 P2 : cnt K k (P1 ++ P2) = (cnt K k P1 + cnt K k P2)%nat.
+Proof. unfold cnt. rewrite pairs_of_app. apply cntp_app. Qed.
+
+(* the loop timers a call submitted = those before its last epoch notification ++ those after *)
+Lemma acc_from_split es : forall a,
+  exists d, fst a ++ pairs_of (subm es) = d ++ fst (acc_from a es)
+            /\ (snd (acc_from a es) = false -> d = [] /\ snd a = false).
+Proof.
+  induction es as [|e es IH]; intros a.
+  - exists []. cbn. rewrite app_nil_r. auto.
+  - cbn [acc_from fold_left]. fold (acc_from (acc_step a e) es).
+    destruct (IH (acc_step a e)) as (d & E & F).
+    destruct e as [dst b|t dur|n]; cbn [acc_step subm flat_map app] in *.
+    + exists d. split; [exact E|exact F].
+    + cbn [pairs_of flat_map]. fold (pairs_of (subm es)).
+      destruct (loop_of t) as [x|]; cbn [fst snd app] in *.
+      * exists d. rewrite <- app_assoc in E. cbn [app] in E. split; [exact E|exact F].
+      * exists d. split; [exact E|exact F].
+    + destruct (epoch_note n); cbn [fst snd app] in *.
+      * exists (fst a ++ d). rewrite <- app_assoc, <- E. split; [reflexivity|].
+        intros H. destruct (F H) as [_ X]. discriminate.
+      * exists d. split; [exact E|exact F].
+Qed.
+
+Lemma acc_split es :
+  exists d, pairs_of (subm es) = d ++ fst (acc es) /\ (snd (acc es) = false -> d = []).
+Proof.
+  destruct (acc_from_split es ([], false)) as (d & E & F). exists d. cbn [fst app] in E. split; [exact E|].
+  intros H. apply F. exact H.
+Qed.
+
+Definition Inv (f : foca) (P : list (timer Id)) : Prop :=
+  forall K, (conn f = Connected -> In K (enabled (cfg f)) -> cnt K (token f) P = 1%nat)
+         /\ (conn f <> Connected -> cnt K (token f) P = 0%nat).
+
+(* no aliasing across epochs (fewer than 256 epoch changes between issue and delivery):
+   after an epoch change no timer issued earlier carries the new token *)
+Definition no_alias (f' : foca) (P1 : list (timer Id)) (es : list effect) : Prop :=
+  forall K d, pairs_of (subm es) = d ++ fst (acc es) ->
+              cnt K (token f') P1 = 0%nat /\ cntp K (token f') d = 0%nat.
+
+Lemma NoDup_enabled c : NoDup (enabled c).
+Proof.
+  unfold enabled. destruct (is_some (periodic_announce c)), (is_some (periodic_announce_down c)), (is_some (periodic_gossip c));
+    cbn; repeat constructor; cbn; intuition discriminate.
+Qed.
+
+Lemma cntp_full K c k : cntp K k (full c k) = if existsb (lk_eqb K) (enabled c) then 1%nat else 0%nat.
+Proof.
+  unfold full. pose proof (NoDup_enabled c) as ND. induction (enabled c) as [|x l IH]; [reflexivity|].
+  inversion ND as [|? ? Hn ND']; subst. cbn [map existsb]. unfold cntp in *. cbn [filter fst snd].
+  rewrite N.eqb_refl, andb_true_r. destruct (lk_eqb K x) eqn:E.
+  - apply lk_eqb_eq in E. subst x. cbn [length orb]. rewrite IH by exact ND'.
+    destruct (existsb (lk_eqb K) l) eqn:X; [|reflexivity].
+    apply existsb_exists in X. destruct X as (y & Hy & Ey). apply lk_eqb_eq in Ey. subst. contradiction.
+  - cbn [orb]. apply IH. exact ND'.
+Qed.
+
+Lemma In_existsb K l : In K l -> existsb (lk_eqb K) l = true.
+Proof. intros H. apply existsb_exists. exists K. split; [exact H|apply lk_eqb_eq; reflexivity]. Qed.
+
+Lemma cnt_subm K k es d : pairs_of (subm es) = d ++ fst (acc es) ->
+  cnt K k (subm es) = (cntp K k d + cntp K k (fst (acc es)))%nat.
+Proof. intros E. unfold cnt. rewrite E. apply cntp_app. Qed.
+
+Definition clean (r : result) : Prop := match r with Failed EEncode => False | Panicked _ => False | _ => True end.
+Definition epoch_changed (f f' : foca) (es : list effect) : Prop := snd (acc es) = true \/ token f' <> token f.
+
+(* delivering a timer that is not the live timer of an enabled loop (stale, foreign kind, disabled
+   task) takes nothing away that the invariant counts *)
+Lemma Inv_remove_nonlive (f : foca) (P1 P2 : list (timer Id)) (t : timer Id) :
+  Inv f (P1 ++ t :: P2) -> live_timer f t = None -> Inv f (P1 ++ P2).
+Proof.
+  intros HI NL K'. destruct (HI K') as [H1 H2]. rewrite !cnt_app in *.
+  assert (E : exists b : bool, cnt K' (token f) (t :: P2) = ((if b then 1 else 0) + cnt K' (token f) P2)%nat
+              /\ (b = true -> exists K, loop_of t = Some (K, token f) /\ K' = K)).
+  { unfold cnt. cbn [pairs_of flat_map]. fold (pairs_of P2). destruct (loop_of t) as [[K k]|] eqn:LO.
+    - cbn [app]. unfold cntp. cbn [filter fst snd].
+      destruct (lk_eqb K' K && (token f =? k)) eqn:B.
+      + exists true. split; [reflexivity|]. intros _. apply andb_true_iff in B. destruct B as [B1 B2].
+        apply lk_eqb_eq in B1. apply N.eqb_eq in B2. subst. exists K. auto.
+      + exists false. split; [reflexivity|discriminate].
+    - exists false. split; [reflexivity|discriminate]. }
+  destruct E as (b & E1 & E2). rewrite E1 in *. destruct b; [|split; [exact H1|exact H2]].
+  destruct (E2 eq_refl) as (K & LO & ->).
+  (* t is a loop timer of kind K carrying the current token, yet not live *)
+  destruct (conn f) eqn:Cn.
+  - specialize (H2 ltac:(discriminate)). lia.
+  - split; [|intros X; contradiction]. intros _ HK. exfalso.
+    destruct t; cbn [loop_of] in LO; inversion LO; subst; cbn [live_timer] in NL;
+      rewrite N.eqb_refl, Cn in NL; cbn [conn_eqb andb] in NL; try discriminate;
+      unfold enabled in HK;
+      match type of NL with (if ?c then _ else _) = _ => destruct c eqn:Ec; [discriminate|] end;
+      cbn in HK; rewrite ?Ec in HK;
+      repeat (match goal with
+              | H : _ \/ _ |- _ => destruct H
+              | H : In _ (_ ++ _) |- _ => apply in_app_or in H
+              | H : In _ (if ?c then _ else _) |- _ => destruct c; cbn in H
+              | H : In _ [] |- _ => contradiction
+              | H : In _ [_] |- _ => destruct H
+              end; try discriminate; try contradiction).
+  - specialize (H2 ltac:(discriminate)). lia.
+Qed.
+
+(* a call that does not consume a live loop timer *)
+Theorem loop_invariant_other (f : foca) (P : list (timer Id)) (i : @input Id) :
+  Inv f P ->
+  match i with ITimer t => live_timer f t = None | _ => True end ->
+  let '(f', es, r, _) := step rnd f i in
+  clean r -> (epoch_changed f f' es -> no_alias f' P es) ->
+  Inv f' (P ++ subm es).
+Proof.
+  intros HI NL. pose proof (step_acct rnd f None i) as SA.
+  assert (EL : None = match i with ITimer t => live_timer f t | _ => None end).
+  { destruct i; try reflexivity. symmetry. exact NL. }
+  specialize (SA EL). destruct (step rnd f i) as [[[f' es] r] k]. intros Cl NA.
+  assert (Jf : J f None (mkRs f' es k)) by (destruct r as [| |e|p]; try exact SA; [destruct e; try exact SA; contradiction|contradiction]).
+  clear SA. destruct (acc_split es) as (d & Ed & Fd).
+  destruct Jf as [(A & T & C & G)|[(C & A & X)|[(C & A & X)|[]]]]; cbn [st out] in *.
+  - (* nothing happened to the loops *)
+    assert (d = []) by (apply Fd; rewrite A; reflexivity). subst d.
+    intros K. rewrite cnt_app, (cnt_subm K _ es [] Ed), A. cbn. rewrite T, C, Nat.add_0_r.
+    destruct (HI K) as [H1 H2]. split; [|exact H2]. intros Cn HK. apply H1; [exact Cn|apply G; exact HK].
+  - (* not connected at the end *)
+    intros K. split; [intros Cn; contradiction|]. intros _.
+    rewrite cnt_app, (cnt_subm K _ es d Ed), A. cbn [cntp filter length]. rewrite Nat.add_0_r.
+    destruct (snd (acc es)) eqn:EP.
+    + destruct (NA (or_introl EP) K d Ed) as [N1 N2]. rewrite N1, N2. reflexivity.
+    + destruct (N.eq_dec (token f') (token f)) as [ET|NT].
+      * rewrite (Fd eq_refl). cbn. rewrite Nat.add_0_r. rewrite ET. apply (HI K). rewrite <- (X eq_refl ET). exact C.
+      * destruct (NA (or_intror NT) K d Ed) as [N1 N2]. rewrite N1, N2. reflexivity.
+  - (* connected in the last epoch of the call: every enabled loop armed once *)
+    intros K. split; [|intros NC; contradiction]. intros _ HK.
+    rewrite cnt_app, (cnt_subm K _ es d Ed), A, cntp_full, (In_existsb _ _ HK).
+    destruct (snd (acc es)) eqn:EP.
+    + destruct (NA (or_introl EP) K d Ed) as [N1 N2]. rewrite N1, N2. reflexivity.
+    + destruct (N.eq_dec (token f') (token f)) as [ET|NT].
+      * rewrite (Fd eq_refl). cbn. rewrite ET. rewrite (proj2 (HI K) (X eq_refl ET)). reflexivity.
+      * destruct (NA (or_intror NT) K d Ed) as [N1 N2]. rewrite N1, N2. reflexivity.
+Qed.
+
+(* the live timer of an enabled loop is delivered: it is taken out of the pending set and the
+   handler puts exactly one successor back *)
+Theorem loop_invariant_live (f : foca) (P1 P2 : list (timer Id)) (t : timer Id) (K : lk) :
+  Inv f (P1 ++ t :: P2) -> live_timer f t = Some K ->
+  let '(f', es, r, _) := step rnd f (ITimer t) in
+  clean r -> Inv f' (P1 ++ P2 ++ subm es).
+Proof.
+  intros HI LT. pose proof (step_live rnd f t K LT) as SL.
+  destruct (step rnd f (ITimer t)) as [[[f' es] r] k]. intros Cl.
+  assert (HM : ML f K (mkRs f' es k)) by (destruct r as [| |e|p]; try exact SL; [destruct e; try exact SL; contradiction|contradiction]).
+  clear SL. destruct HM as (A & T & C & C0 & G). cbn [st out] in *.
+  destruct (acc_split es) as (d & Ed & Fd). assert (d = []) by (apply Fd; rewrite A; reflexivity). subst d.
+  assert (LO : loop_of t = Some (K, token f)).
+  { destruct t; cbn [live_timer] in LT; try discriminate;
+      match type of LT with (if ?c then _ else _) = _ => destruct c eqn:E; [|discriminate] end;
+      inversion LT; subst K; cbn [loop_of]; repeat (apply andb_true_iff in E; destruct E as [E ?]);
+      apply N.eqb_eq in E; subst; reflexivity. }
+  assert (KE : In K (enabled (cfg f))).
+  { unfold enabled. destruct t; cbn [live_timer] in LT; try discriminate;
+      match type of LT with (if ?c then _ else _) = _ => destruct c eqn:E; [|discriminate] end;
+      inversion LT; subst K; repeat (apply andb_true_iff in E; destruct E as [E ?]).
+    - left. reflexivity.
+    - right. apply in_or_app. left. match goal with H : is_some _ = true |- _ => rewrite H end. left. reflexivity.
+    - right. apply in_or_app. right. apply in_or_app. left. match goal with H : is_some _ = true |- _ => rewrite H end. left. reflexivity.
+    - right. apply in_or_app. right. apply in_or_app. right. match goal with H : is_some _ = true |- _ => rewrite H end. left. reflexivity. }
+  intros K'. rewrite T, C. split; [|intros NC; contradiction]. intros _ HK'.
+  apply G in HK'. destruct (HI K') as [H1 _]. specialize (H1 C0 HK').
+  rewrite !cnt_app in *. rewrite (cnt_subm K' _ es [] Ed), A. cbn [app fst].
+  assert (E1 : cnt K' (token f) (t :: P2) = ((if lk_eqb K' K then 1 else 0) + cnt K' (token f) P2)%nat).
+  { unfold cnt. cbn [pairs_of flat_map]. rewrite LO. fold (pairs_of P2). cbn [app]. unfold cntp. cbn [filter fst snd].
+    rewrite N.eqb_refl, andb_true_r. destruct (lk_eqb K' K); reflexivity. }
+  assert (E2 : cntp K' (token f) [(K, token f)] = (if lk_eqb K' K then 1 else 0)%nat).
+  { unfold cntp. cbn [filter fst snd]. rewrite N.eqb_refl, andb_true_r. destruct (lk_eqb K' K); reflexivity. }
+  rewrite E1 in H1. rewrite E2. unfold cntp at 1. cbn [filter length].
+  destruct (lk_eqb K' K); lia.
+Qed.
+
+End Loop.
+
+(* ---------- which errors handle_timer can return ---------- *)
+Section TimerErrors.
+Context {Id Addr : Type} {IO : IdOps Id Addr} {CO : CodecOps Id} {HO : HandlerOps Id} {IL : IdLaws IO}.
+Variable rnd : oracle.
+Notation foca := (@foca Id Addr HO).
+Notation M := (@M Id Addr HO).
+Notation "x <- m ;; f" := (bind m (fun x => f)) (at level 61, m at next level, right associativity).
+Notation "m ;;; f" := (bind m (fun _ => f)) (at level 61, right associativity).
+
+Definition errs {A} (S : error -> Prop) (m : M A) : Prop :=
+  forall s, match m s with (_, RErr e) => S e | _ => True end.
+
+Lemma errs_bind {A B} S (m : M A) (f : A -> M B) : errs S m -> (forall a, errs S (f a)) -> errs S (bind m f).
+Proof. intros Hm Hf s. specialize (Hm s). unfold bind. destruct (m s) as [s1 [a|e|p]]; auto. apply Hf. Qed.
+Lemma errs_oee {A} (S : error -> Prop) (m : M A) : S EEncode -> oee m -> errs S m.
+Proof. intros HS H s. specialize (H s). destruct (m s) as [s1 [a|e|p]]; auto. subst. exact HS. Qed.
+Lemma errs_fail {A} (S : error -> Prop) e : S e -> errs S (@fail Id Addr HO A e).
+Proof. intros H s. exact H. Qed.
+Lemma errs_get_bind {B} S (body : foca -> M B) : (forall f, errs S (body f)) -> errs S (f <- get ;; body f).
+Proof. intros H. apply errs_bind; [intros s; exact I|exact H]. Qed.
+
+Lemma oee_choose_and_send n msg : oee (choose_and_send rnd n msg).
+Proof.
+  unfold choose_and_send. apply oee_bind.
+  { unfold choose_active. apply oee_get_bind. intros f1. apply oee_with_ctr. }
+  intros chosen. apply oee_forM. intros m. apply oee_send_message.
+Qed.
+Lemma oee_announce_to_down n : oee (announce_to_down rnd n).
+Proof.
+  unfold announce_to_down. apply oee_get_bind. intros f.
+  apply oee_bind; [apply oee_with_ctr|]. intros chosen. apply oee_forM. intros m. apply oee_send_message.
+Qed.
+Lemma oee_indirect_loop probed l : oee (indirect_loop rnd probed l).
+Proof.
+  unfold indirect_loop. apply oee_forM. intros m. apply oee_get_bind. intros f.
+  destruct (probe_expect_indirect_ack (prb f) (m_id m)); [|apply oee_panic].
+  apply oee_bind; [apply oee_modify|]. intros _. apply oee_send_message.
+Qed.
+Lemma oee_adjust : oee (@adjust_connection_state Id Addr HO).
+Proof.
+  unfold adjust_connection_state. apply oee_get_bind. intros f. destruct (conn f).
+  - apply oee_when. unfold become_connected. apply oee_get_bind. intros f1.
+    destruct (_ =? 0); [apply oee_panic|].
+    apply oee_bind; [apply oee_modify|]. intros _. apply oee_bind; [apply oee_emit|]. intros _.
+    unfold submit_periodic.
+    apply oee_bind; [destruct (periodic_announce (cfg f1)) as [[? ?]|]; [apply oee_emit|apply oee_ret]|]. intros _.
+    apply oee_bind; [destruct (periodic_announce_down (cfg f1)) as [[? ?]|]; [apply oee_emit|apply oee_ret]|]. intros _.
+    apply oee_bind; [destruct (periodic_gossip (cfg f1)) as [[? ?]|]; [apply oee_emit|apply oee_ret]|]. intros _.
+    apply oee_emit.
+  - apply oee_when. unfold become_disconnected. apply oee_get_bind. intros f1.
+    destruct (negb _); [apply oee_panic|]. apply oee_bind; [apply oee_modify|]. intros _. apply oee_emit.
+  - apply oee_ret.
+Qed.
+
+Definition timer_err (e : error) : Prop := e = EEncode \/ e = EIncompleteProbeCycle \/ e = ENotConnected.
+Definition probe_err (e : error) : Prop := e = EEncode \/ e = EIncompleteProbeCycle.
+
+Lemma errs_probe_random_member : errs probe_err (probe_random_member rnd).
+Proof.
+  assert (PE : probe_err EEncode) by (left; reflexivity).
+  unfold probe_random_member. apply errs_get_bind. intros f.
+  destruct (negb (conn_eqb (conn f) Connected)); [intros s; exact I|].
+  apply errs_bind; [apply (errs_oee _ _ PE), oee_when, oee_modify|]. intros _.
+  apply errs_get_bind. intros f1. destruct (probe_take_failed (prb f1)) as [p' failed].
+  apply errs_bind; [apply (errs_oee _ _ PE), oee_modify|]. intros _.
+  apply errs_bind.
+  { apply (errs_oee _ _ PE). destruct failed as [fm|]; [|apply oee_ret]. apply oee_get_bind. intros f2.
+    destruct (apply_existing_if _ _ _) as [[ms sm]|]; [|apply oee_ret].
+    apply oee_bind; [apply oee_modify|]. intros _. apply oee_bind; [apply oee_hsum|]. intros _.
+    apply oee_get_bind. intros f3. apply oee_when, oee_emit. }
+  intros _. apply errs_get_bind. intros f2.
+  apply errs_bind; [apply (errs_oee _ _ PE), oee_with_ctr|]. intros [ms chosen].
+  apply errs_bind; [apply (errs_oee _ _ PE), oee_modify|]. intros _.
+  apply errs_bind.
+  { apply (errs_oee _ _ PE). destruct chosen as [m|]; [|apply oee_ret]. apply oee_get_bind. intros f3.
+    destruct (probe_start (prb f3) m) as [p'0 n].
+    apply oee_bind; [apply oee_modify|]. intros _. apply oee_bind; [apply oee_send_message|]. intros _.
+    apply oee_get_bind. intros f4. apply oee_emit. }
+  intros _. apply errs_get_bind. intros f3.
+  apply errs_bind; [apply (errs_oee _ _ PE), oee_emit|]. intros _.
+  destruct (negb _); [apply errs_fail; right; reflexivity|intros s; exact I].
+Qed.
+
+(* handle_timer returns Done, or fails with Encode (a header that does not fit), IncompleteProbeCycle
+   (a probe timer delivered before its round's SendIndirectProbe), or NotConnected - the latter only
+   for a probe timer carrying the current token while the instance is not connected *)
+Theorem handle_timer_errors (f : foca) (t : timer Id) :
+  match snd (fst (step rnd f (ITimer t))) with
+  | Failed e => e = EEncode \/ e = EIncompleteProbeCycle
+                \/ (e = ENotConnected /\ conn f <> Connected /\ t = TProbeRandomMember (token f))
+  | _ => True
+  end.
+Proof.
+  cbn [step]. unfold run_unit, handle_timer, bind at 1, get at 1. cbv beta iota. cbn [st].
+  assert (EE : forall (m : M unit), oee m ->
+            match snd (fst (let '(s, r) := m (mkRs f [] 0) in (st s, out s, to_result (fun _ => Done) r, ctr s))) with
+            | Failed e => e = EEncode \/ e = EIncompleteProbeCycle
+                          \/ (e = ENotConnected /\ conn f <> Connected /\ t = TProbeRandomMember (token f))
+            | _ => True end).
+  { intros m H. specialize (H (mkRs f [] 0)). destruct (m (mkRs f [] 0)) as [s1 [a|e|p]]; cbn; auto. }
+  destruct t as [tok|probed tok|mid inc tok|tok|tok|tok|down].
+  - destruct (tok =? token f) eqn:T; [|apply EE, oee_ret].
+    apply N.eqb_eq in T. subst tok.
+    destruct (conn f) eqn:Cn; cbn [conn_eqb negb].
+    + cbn. right. right. repeat split; auto. discriminate.
+    + pose proof (errs_probe_random_member (mkRs f [] 0)) as H.
+      destruct (probe_random_member rnd (mkRs f [] 0)) as [s1 [a|e|p]]; cbn; auto. destruct H as [->| ->]; auto.
+    + cbn. right. right. repeat split; auto. discriminate.
+  - apply EE. destruct (negb (tok =? token f)); [apply oee_ret|].
+    apply oee_bind; [apply oee_modify|]. intros _.
+    destruct (negb (probe_is_probing _ _)); [apply oee_ret|].
+    destruct (probe_succeeded _); [apply oee_ret|].
+    destruct (negb (is_active_id _ _)); [apply oee_ret|].
+    apply oee_bind; [unfold choose_active; apply oee_get_bind; intros f1; apply oee_with_ctr|]. intros chosen.
+    apply oee_indirect_loop.
+  - apply EE. destruct (negb (token f =? tok)); [apply oee_ret|].
+    destruct (apply_existing_if _ _ _) as [[ms sm]|]; [|apply oee_ret].
+    apply oee_bind; [apply oee_modify|]. intros _. apply oee_bind; [apply oee_hsum|]. intros _.
+    apply oee_bind; [apply oee_adjust|]. intros _. apply oee_when, oee_send_message.
+  - apply EE. destruct (periodic_guard _ _); [|apply oee_ret].
+    destruct (periodic_announce _) as [[freq n]|]; [|apply oee_ret].
+    apply oee_bind; [apply oee_emit|]. intros _. apply oee_choose_and_send.
+  - apply EE. destruct (periodic_guard _ _); [|apply oee_ret].
+    destruct (periodic_announce_down _) as [[freq n]|]; [|apply oee_ret].
+    apply oee_bind; [apply oee_emit|]. intros _. apply oee_announce_to_down.
+  - apply EE. destruct (periodic_guard _ _); [|apply oee_ret].
+    destruct (periodic_gossip _) as [[freq n]|]; [|apply oee_ret].
+    apply oee_bind; [apply oee_emit|]. intros _.
+    destruct (updates f), (customs f); try apply oee_ret; apply oee_choose_and_send.
+  - apply EE, oee_modify.
+Qed.
+
+End TimerErrors.
